@@ -1,4 +1,5 @@
 import PyCliffordModel.Model.Poly
+import PyCliffordModel.Model.Torch
 /-!
 # Driver — line protocol around the executable model (trusted glue: parsing and printing only)
 
@@ -276,6 +277,20 @@ def pureOp (w : List String) : Option String :=
   | ["repr", a] => do
       let a ← decPauli a
       pure (match reprPauli a with | some cs => "ok " ++ String.ofList (cs.map fun c => if c == ' ' then '.' else c) | none => "err UnboundLocalError")
+  | ["T.acqgrid", a, b] => do let a ← decStr a; let b ← decStr b; pure (toString (T.acqGrid a b))
+  | ["T.rotate", g, rows] => do let g ← decPauli g; let rows ← decRows rows; pure (encRows (rows.map (T.cliffordRotate g)))
+  | ["T.rotsignless", g, rows] => do let g ← decStr g; let rows ← decStrs rows; pure (encStrs (rows.map (T.rotateSignless g)))
+  | ["T.onsite", g, i0] => do let g ← decStr g; let i0 ← i0.toNat?; pure (toString (T.isOnsite g i0))
+  | ["T.front", g] => do let g ← decStr g; pure (toString (T.front g))
+  | ["T.condense", g] => do
+      let g ← decStr g
+      let (gc, q) := T.condense g
+      pure (encStr gc ++ " " ++ encInts (q.map Int.ofNat))
+  | ["T.maptostate", m] => do let m ← decRows m; pure (encRows (T.mapToState m))
+  | ["T.statetomap", m] => do let m ← decRows m; pure (encRows (T.stateToMap m))
+  | ["T.vecexpect", r, t, obs] => do
+      let st ← decState r t; let obs ← decRows obs
+      pure (encInts (obs.map (T.vecExpect1 st)))
   | ["reduce", p, tn, td] => do
       let p ← decPoly p; let tn ← tn.toNat?; let td ← td.toNat?
       pure (encPoly (reduce p tn td))
